@@ -23,3 +23,6 @@ cp go.mod "$OUT/go.mod"; cp go.sum "$OUT/go.sum"
 echo "replace google.golang.org/grpc => $GRPCDIR" >> "$OUT/go.mod"
 bin/vrewrite -repo "$REPO" -out "$OUT/ov" -export .=/verif/overlay/plugin_export.go.src -durable "$GRPCDIR" -replace "$GRPCDIR/internal/grpcrand/grpcrand.go=/verif/overlay/grpcrand.go.src"
 go1.26 test -c -vet=off -modfile="$OUT/go.mod" -overlay "$OUT/ov/overlay.json" -o "$OUT/worker.test" ./scen/
+# E3: real-process cells run uninstrumented against the working tree
+go1.26 build -o "$OUT/vplugin" ./cmd/vplugin
+go1.26 test -c -vet=off -o "$OUT/e3.test" ./e3/
